@@ -59,6 +59,10 @@ def collection_elements(W, body, term):
             continue
         if t[0] == "agg" and t[1] == "array":
             return [v for _, v in t[2]]
+        if t[0] == "call" and t[1] in ("core::slice::<impl [T]>::iter", "core::slice::<impl [T]>::iter_mut", "core::array::<impl [T; N]>::iter",
+                                       "core::iter::traits::iterator::Iterator::copied", "core::iter::traits::iterator::Iterator::cloned") and t[3]:
+            t = t[3][0]       # iterating a borrowed array / vec yields its elements in order
+            continue
         if t[0] == "call" and t[1] in ("alloc::boxed::box_assume_init_into_vec_unsafe", "alloc::slice::<impl [T]>::into_vec") and t[3]:
             inner = t[3][0]
             if inner[0] == "agg" and inner[1] == "array":
